@@ -83,6 +83,29 @@ def run():
     log += _expect("SelectionTrace", {"chain": ch, "ev": okev},
                    [("wrong-best", {"chain": ch, "ev": b1}), ("wrong-order", {"chain": ch, "ev": b2}),
                     ("overlapping", {"chain": ch, "ev": b3})], constants={"NItems": 1, "V": 0})
+    # Distinct (L2 model of make_distinct): a real recording; dropped call / wrong order / wrong final must not be explained
+    from props import c17
+    dch = [[[0, 2], [0, 1], [0, 0]], [[0, 2], [1, 2], [1, 1]], [[1, 2], [2, 2]]]
+    d = c17.run_schedule(dch)[0][-1]
+    good = {"chain": dch, "calls": d["calls"], "final": d["iv"]}
+    bads = [("dropped-call", dict(good, calls=d["calls"][:-1])),
+            ("swapped-calls", dict(good, calls=[d["calls"][1], d["calls"][0]] + d["calls"][2:])),
+            ("wrong-final", dict(good, final=[list(c[0]) for c in dch]))]
+    acc, _ = c17.validate_distinct([good] + [b for _, b in bads], "selftest-DistinctTrace")
+    if 0 not in acc:
+        raise MachineryError("DistinctTrace does not explain an unmodified recording of make_distinct: %s" % good)
+    for i, (name, _) in enumerate(bads, 1):
+        if i in acc:
+            raise MachineryError("DistinctTrace explains a corrupted recording (%s)" % name)
+        log.append("DistinctTrace/%s -> not a behaviour" % name)
+    # Dispatch (L2 model of get_formatter): a real recording; a wrong answer must be rejected
+    from props import _dispatch
+    u = {"has": [["VA"], ["object"], []], "subtypes": [[], [1], [2, 1]], "reg": [2], "mro": ["VB", "VA", "object"],
+         "base": [3, 1], "mro_full": ["VB", "VA", "object"]}
+    u["answer"] = _dispatch.real_resolve(u)
+    log += _expect("DispatchTrace", u, [("wrong-formatter", dict(u, answer=["1", "VA"] if u["answer"] != ["1", "VA"] else ["2", "object"])),
+                                        ("none", dict(u, answer=[]))],
+                   constants={"K": 1, "Names": "<- N0", "MaxSubs": 0, "MaxDepth": 1})
     # Assign
     good = {"table": [[1, 0], [0, 2]], "result": [[1, 2, 0], [2, 1, 0]], "raised": False}
     b1 = {"table": [[1, 0], [0, 2]], "result": [[1, 1, 1], [2, 2, 2]], "raised": False}
